@@ -13,11 +13,14 @@ MAP = {
          ("Starmap", ["filterfalse_trace", "filterfalse_yields", "starmap_trace", "starmap_yields"]),
          ("Islice", ["islice_trace", "islice_yields"]), ("Pairwise", ["pairwise_trace", "pairwise_yields"]),
          ("ZipLongest", ["zip_longest_trace", "zip_longest_yields"]),
-         ("Merge", ["merge_spec", "merge_yields"]), ("MergeSorted", ["spec_merge_perm", "spec_merge_sorted"])],
+         ("Merge", ["merge_spec", "merge_yields"]), ("MergeSorted", ["spec_merge_perm", "spec_merge_sorted"]),
+         ("PylEquiv", ["all_sources_supported", "src_filter_ok", "src_enumerate_ok", "src_takewhile_ok", "src_dropwhile_ok", "src_filterfalse_ok",
+                       "src_starmap_ok", "src_pairwise_ok"])],
  "C02": [("MinMax", ["min_max_spec", "spec_min_first_minimal", "spec_max_first_maximal", "spec_min_max_type_error", "spec_min_max_value_error"]),
          ("AllAny", ["all_spec", "any_spec"]), ("Folds", ["sum_spec", "list_spec", "tuple_spec", "set_spec", "dict_spec", "reduce_spec"]),
          ("Sorted", ["sorted_spec", "spec_sorted_perm", "spec_sorted_sorted", "spec_sorted_stable", "sorted_type_error_exact", "sorted_outcome_cases"]),
-         ("Largest", ["nlargest_spec", "nsmallest_spec"])],
+         ("Largest", ["nlargest_spec", "nsmallest_spec"]),
+         ("PylEquiv", ["all_sources_supported", "src_all_ok", "src_any_ok", "src_list_ok", "src_tuple_ok", "src_set_ok"])],
  "C04": [("ReleaseAll", ["tool_releases", "tool_releases_closed", "tool_releases_partial", "tool_releases_refuted"]),
          ("Release", ["scoped_releases", "close_all_releases"]), ("ReleaseChain", ["chain_releases", "chain_close_releases"]),
          ("Static", ["scoping_releases", "scoping_nonempty"])],
@@ -26,7 +29,9 @@ MAP = {
          ("Chain", ["chain_trace"]), ("Compress", ["compress_trace"]), ("Cycle", ["cycle_trace"]),
          ("TakeDrop", ["takewhile_trace", "dropwhile_trace"]), ("Starmap", ["filterfalse_trace", "starmap_trace"]),
          ("Islice", ["islice_trace", "islice_pulls"]), ("Pairwise", ["pairwise_trace"]), ("ZipLongest", ["zip_longest_trace"]),
-         ("Merge", ["merge_trace"]), ("AllAny", ["all_spec", "any_spec"]), ("RegularTools", ["fault_prefix"])],
+         ("Merge", ["merge_trace"]), ("AllAny", ["all_spec", "any_spec"]), ("RegularTools", ["fault_prefix"]),
+         ("PylEquiv", ["all_sources_supported", "src_all_ok", "src_any_ok", "src_filter_ok", "src_enumerate_ok", "src_takewhile_ok", "src_dropwhile_ok",
+                       "src_filterfalse_ok", "src_starmap_ok", "src_pairwise_ok"])],
  "C16": [("GroupBy", ["groupby_refines", "stale_group_stops", "group_items_in_order", "group_items_no_duplicates", "group_numbers_sequential",
                      "groupby_close_releases", "closed_groupby_stops_partial", "closed_groupby_stops_refuted"])],
  "C10": [("LruKeys", ["key_classes", "key_classes_explicit"]),
@@ -65,7 +70,8 @@ Require Import V.Kernel.Values.
 """
 CALC = ("Require Import V.Kernel.Monad V.Kernel.Fn V.Model.Builtins V.Model.Itertools V.Model.Heapq V.Model.Tool.\n"
         "Require Import V.Std.Filter V.Std.Builtins V.Std.Itertools1 V.Std.Multi V.Std.Heapq.\n")
-MODELS = {"C01": CALC, "C02": CALC, "C04": CALC, "C05": CALC, "C06": CALC, "C18": CALC,
+PYL = CALC + "Require Import V.Model.Pyl V.Gen.PylSrc.\n"
+MODELS = {"C01": PYL, "C02": PYL, "C04": CALC, "C05": PYL, "C06": CALC, "C18": CALC,
           "C07": "Require Import V.Model.Borrow.\n", "C08": "Require Import V.Model.Borrow.\n",
           "C09": "Require Import V.Model.Tee.\n", "C10": "Require Import V.Model.Lru.\n", "C11": "Require Import V.Model.LruConc V.Model.Lru V.Proofs.Lru V.Proofs.LruConc.\n",
           "C12": "Require Import V.Model.CachedProperty.\n", "C13": "Require Import V.Model.ContextManager.\n",
